@@ -263,6 +263,23 @@ func c01Gen(tier string, rng *rand.Rand, emit func(interface{})) {
 			emit(c01Case{Run: mwRun{EL: 50, TL: 25, X1: toF64s(pool[:n1]), X2: toF64s(pool[n1:]), Alts: allAlts, WarmT: all}})
 		}
 	}
+	// (b4) near-equal DISTINCT values: v and its neighbours 1..8 ulps away at several magnitudes, mixed
+	// with exact ties, inside one sample and across the samples
+	nNear := 120
+	if thorough {
+		nNear = 1500
+	}
+	for it := 0; it < nNear; it++ {
+		n1, n2 := 1+rng.Intn(8), 1+rng.Intn(8)
+		if it%10 == 0 {
+			n1, n2 = 1+rng.Intn(25), 1+rng.Intn(25)
+		}
+		if it%7 == 0 {
+			n1, n2 = 1, 1+rng.Intn(3)
+		}
+		x1, x2 := mwNearEqual(rng, n1, n2)
+		emit(c01Case{Run: mwRun{EL: 50, TL: 25, X1: toF64s(x1), X2: toF64s(x2), Alts: allAlts}})
+	}
 	// (c) degenerate: empty samples, all-equal samples
 	emit(c01Case{Run: mwRun{EL: 50, TL: 25, X1: nil, X2: toF64s([]float64{1, 2}), Alts: allAlts}})
 	emit(c01Case{Run: mwRun{EL: 50, TL: 25, X1: toF64s([]float64{1, 2}), X2: []F64{}, Alts: allAlts}})
